@@ -14,11 +14,11 @@ import (
 //
 // Accepted idioms (frozen after reading the tree; keyed by callee + caller, one reason each):
 var g1Allow = map[string]string{
-	"(*bytes.Buffer).WriteString|derive.(*printer).WriteTo": "bytes.Buffer writes cannot fail (documented: err is always nil)",
-	"fmt.Fprintf|derive.(*printer).P":                        "destination is the printer's *bytes.Buffer; cannot fail",
-	"(derive.TypesMap).SetFuncName|derive.(*typesMap).GetFuncName": "name comes from newName: unbound in both tables, so registration cannot fail",
+	"(*bytes.Buffer).WriteString|derive.(*printer).WriteTo":         "bytes.Buffer writes cannot fail (documented: err is always nil)",
+	"fmt.Fprintf|derive.(*printer).P":                               "destination is the printer's *bytes.Buffer; cannot fail",
+	"(derive.TypesMap).SetFuncName|derive.(*typesMap).GetFuncName":  "name comes from newName: unbound in both tables, so registration cannot fail",
 	"(*derive.typesMap).SetFuncName|derive.(*typesMap).GetFuncName": "name comes from newName: unbound in both tables, so registration cannot fail",
-	"(*os.File).Close|derive.newPackage":                     "deferred close of the rewritten source file after format.Node's own error was checked (I/O-error atomicity is outside C10's static clause)",
+	"(*os.File).Close|derive.newPackage":                            "deferred close of the rewritten source file after format.Node's own error was checked (I/O-error atomicity is outside C10's static clause)",
 }
 
 // classification calls that legitimise recovering from an error
